@@ -75,6 +75,12 @@ def check_positions(root, tokens, pos, text, src, nonterms, suffix_free=True):
                     f.append(("empty_node_not_at_following_token", f"{t.name}: {t.span}, following token starts at {e[1]}"))
                 elif e[0] == "end" and not (last_tok_end <= got_s <= end_of_text):
                     f.append(("empty_node_at_end_out_of_range", f"{t.name}: {t.span}, allowed {last_tok_end}..{end_of_text}"))
+                else:
+                    try:
+                        if t.get_orig_text(src) != "":
+                            f.append(("empty_node_orig_text_not_empty", f"{t.name} {t.span}: {t.get_orig_text(src)!r}"))
+                    except AssertionError as ex:
+                        f.append(("empty_node_orig_text_raises_AssertionError", f"{t.name} {t.span}: {ex}"))
                 return e, e
             spans = [visit(k) for k in kids]
             es, ee = spans[0][0], spans[-1][1]
